@@ -127,10 +127,21 @@ def run_case(case):
         fz = schedfuzz.SchedFuzz(seed=1, p=0.0)
         fz.add_site(mt.Thread.run, 'def run(self):', prob=1.0, delay=0.01, where='after', name='thread-run-first-line')
         fz.start()
+    kept_kwargs = None
     if is_proc:
-        w = mm.Process(target=targets.c12_target, args=(spec, ready))
+        if hash(repr((ending, case['first']))) % 2 == 0:
+            # the caller builds the keyword arguments in a dict of its own and keeps it (a config object, a loop variable, ...)
+            kept_kwargs = {'ready': ready}
+            w = mm.Process(target=targets.c12_target, args=(spec,), kwargs=kept_kwargs)
+            obs['caller_kwargs_touched'] = 0 if set(kept_kwargs) == {'ready'} else 1  # evidence only: not part of the statement
+        else:
+            w = mm.Process(target=targets.c12_target, args=(spec, ready))
     else:
-        w = mt.Thread(target=targets.c12_target, args=(spec,))
+        if hash(repr((ending, case['first']))) % 2 == 0:
+            kept_kwargs = {'ready': None}
+            w = mt.Thread(target=targets.c12_target, args=(spec,), kwargs=kept_kwargs)
+        else:
+            w = mt.Thread(target=targets.c12_target, args=(spec,))
     t_start = time.monotonic()
     w.start()
 
